@@ -99,6 +99,18 @@ example : (Proc.forkFrom implCopied 2 { initialEnv.system with cwd := "/d1", uma
     ∧ (Proc.forkFrom implCopied 2 { initialEnv.system with cwd := "/d1", umask := "027" }).umask = "027" := by
   decide
 
+/-- … and nothing else: what belongs to the execution state of the parent process itself is NOT inherited by
+    the forked child (POSIX `fork`: "the set of signals pending for the child process shall be initialized to
+    the empty set"; process state, caught signals, wakers and the `exec` record start afresh), and the copy list
+    is exactly the twelve inherited fields. -/
+theorem child_process_fresh :
+    (∀ f ∈ ["pending_signals", "caught_signals", "caught_signals_count", "state", "state_has_changed",
+            "resumption_awaiters", "signal_wakers", "last_exec"], isCopied implCopied f = false)
+    ∧ (∀ f ∈ processFields, isCopied implCopied f = true ↔
+        f ∈ ["pgid", "uid", "euid", "gid", "egid", "fds", "umask", "cwd", "resource_limits", "dispositions",
+             "blocked_signals"])
+    ∧ srcOf implCopied "ppid" = some "@ppid" := by decide
+
 /-- With everything POSIX names copied (`specCopied`, the Spec's fork) the child process is the parent's. -/
 theorem child_process_copy_spec (ppid : Nat) (p : Proc) :
     (Proc.forkFrom specCopied ppid p).fds = p.fds ∧ (Proc.forkFrom specCopied ppid p).cwd = p.cwd
